@@ -724,7 +724,12 @@ def render(s, tie=True):
     for w in s.get('withdrawn', []):
         out.append('-%d' % w)
     if s.get('undeclared'):
-        out.append('[undeclared %s]' % ' '.join(map(str, s['undeclared'])))
+        und = list(s['undeclared'])
+        if len(und) >= 2 and (sum(und) + s['nc']) % 2 == 0:
+            # one [undeclared ...] item per write-in (items add up, like [withdrawn ...] items)
+            out += ['[undeclared %d]' % c for c in und]
+        else:
+            out.append('[undeclared %s]' % ' '.join(map(str, und)))
     if s.get('options'):
         out.append('[droop %s]' % ' '.join(s['options']))
     for m, r in s['lines']:
